@@ -512,6 +512,161 @@ def scaled_unit_strings(run: Run, tbl, formula):
                           plain_density=a[1], scaled_density=b[1])
 
 
+def revised_density_strings(run: Run, api, me):
+    """components given as STRINGS (read with table=T, T a private table) before and after the density of one of
+    their elements is revised in T: every call - the first, and the same call repeated after the revision - has the
+    volumes (mass / density as T serves it now) in the ratio of the quantities and density = total mass / total
+    volume, and means the same as the string form read with table=T"""
+    formula, mix_by_weight, mix_by_volume = api
+    from periodictable import core, mass as _mass, density as _density
+    rng = run.rng
+    core.PRIVATE_TABLES.pop("c11-revised", None)
+    t = core.PeriodicTable("c11-revised")
+    _mass.init(t)
+    _density.init(t)
+    dense = ["Fe", "Ni", "Cu", "Si", "Au", "Al", "Ti", "Cr", "W", "Pb", "Ag", "Zn"]
+    base = {sym: getattr(t, sym)._density for sym in dense}
+    try:
+        for i in range(120 if run.tier == "quick" else 2500):
+            syms = rng.sample(dense, rng.randint(2, 3))
+            texts = []
+            for sym in syms:
+                r = rng.random()
+                texts.append(sym if r < 0.6 else "%s2" % sym if r < 0.75 else "2%s" % sym if r < 0.85
+                             else "50%%wt %s // %s" % (sym, rng.choice(dense)))
+            by_vol = rng.random() < 0.6
+            cuts = sorted(rng.sample(range(1, 100), len(syms) - 1))
+            pcts = [b - a for a, b in zip([0] + cuts, cuts)]
+            qs = [float(q) for q in pcts] + [100.0 - sum(pcts)]
+            revised = rng.choice(syms)
+            fn = mix_by_volume if by_vol else mix_by_weight
+            args = [x for pair in zip(texts, qs) for x in pair]
+            unit = "vol%" if by_vol else "wt%"
+            text = " // ".join(["%d%s %s" % (q, unit, "(%s)" % c if "//" in c else c)
+                                for q, c in zip(pcts, texts[:-1])]
+                               + ["(%s)" % texts[-1] if "//" in texts[-1] else texts[-1]])
+            for when in ("first call", "same call after the density revision"):
+                inp = dict(components=texts, quantities=qs, by="volume" if by_vol else "weight", string=text,
+                           table="private", density_revised_in_table=revised, call=when)
+                run.count(key="revdens" + repr(inp) + str(i), nontrivial=True, tag="revised-density-strings")
+                try:
+                    r = fn(*args, table=t)
+                    comps = [formula(c, table=t) for c in texts]
+                    f = formula(text, table=t)
+                except Exception as e:  # noqa
+                    run.violation("mixture of string components over a private table raised %s: %s"
+                                  % (type(e).__name__, str(e)[:80]), inp)
+                    break
+                oracle_mix(run, comps, qs, r, "V" if by_vol else "W", inp, t, me)
+                if not same_formula(f, r):
+                    run.violation("string form (read with the private table) differs from the corresponding call with "
+                                  "string components and table=", inp,
+                                  string_result=str(pyside.struct_keys(f.structure)), string_density=f.density,
+                                  call_result=str(pyside.struct_keys(r.structure)), call_density=r.density)
+                if when == "first call":
+                    el = getattr(t, revised)
+                    cur = el._density
+                    new = base[revised] * rng.choice([0.5, 0.8, 1.25, 2.0])
+                    el._density = new if new != cur else base[revised]
+    finally:
+        core.PRIVATE_TABLES.pop("c11-revised", None)
+
+
+def exact_unit_multipliers(run: Run, tbl, api, me):
+    """'the result does not depend on how each component's formula unit is scaled' where the mole multiplier of a
+    component times the count of its formula unit is EXACTLY one: a component written with a fractional unit
+    (Fe0.5, D0.25, (H2O)0.5) mixed with the same material in equal quantity, or in exact molar amounts with other
+    components - calls and string forms, judged by the exact oracle on the components"""
+    formula, mix_by_weight, mix_by_volume = api
+    rng = run.rng
+    dense = [el for el in tbl if el.density is not None and el.number > 0]
+    for i in range(200 if run.tier == "quick" else 4000):
+        c = rng.choice([0.5, 0.5, 0.25, 0.125, 0.2])
+        shape = rng.choice(["self", "self", "molar", "molar", "group"])
+        try:
+            if shape == "self":
+                el = rng.choice(dense)
+                unit, plain = "%s%r" % (el.symbol, c), el.symbol
+                q = rng.choice(["1", "2", "3", "5", "0.5", "2.5", "12", qtext(rng, -3, 3, allow_zero=False)])
+                form = rng.choice(["wt%", "vol%", "mass", "volume", "layer", "call-weight", "call-volume"])
+                order = rng.random() < 0.5
+                a, b = (unit, plain) if order else (plain, unit)
+                if form in ("wt%", "vol%"):
+                    text = "50%s %s // %s" % (rng.choice(W_FIRST if form == "wt%" else V_FIRST), a, b)
+                    qs, by = [50.0, 50.0], "W" if form == "wt%" else "V"
+                elif form == "mass":
+                    u = rng.choice(MASS_U)
+                    text = "%s%s %s // %s%s %s" % (q, u, a, q, u, b)
+                    qs, by = [float(q), float(q)], "W"
+                elif form == "volume":
+                    u = rng.choice(VOL_U)
+                    text = "%s%s %s // %s%s %s" % (q, u, a, q, u, b)
+                    qs, by = [float(q) * el.density, float(q) * el.density], "W"
+                elif form == "layer":
+                    u = rng.choice(LEN_U)
+                    text = "%s %s %s // %s %s %s" % (q, u, a, q, u, b)
+                    qs, by = [float(q), float(q)], "V"
+                else:
+                    text = None
+                    qs, by = [float(q), float(q)], "W" if form == "call-weight" else "V"
+                names = [a, b]
+                inp = dict(components=names, quantities=qs, by="volume" if by == "V" else "weight", form=form)
+                if text is not None:
+                    inp["string"] = text
+                    r = formula(text)
+                else:
+                    r = (mix_by_weight if by == "W" else mix_by_volume)(a, qs[0], b, qs[1])
+                comps = [formula(a), formula(b)]
+            else:
+                k = gens.gen_atom(rng, kinds=("common", "element", "isotope", "alias", "element_ion"))
+                sym = render_flat([(1, k)], tbl)
+                if shape == "group":
+                    inner = render_leaf(("C", rng.choice(LEAVES)[0], None), tbl)
+                    unit = "(%s)%r" % (inner, c)
+                else:
+                    unit = "%s%r" % (sym, c)
+                others = [render_leaf(gen_leaf(rng), tbl) for _ in range(rng.randint(1, 2))]
+                p2 = 2.0 ** rng.randint(-3, 3)
+                names = [unit] + others
+                comps = [formula(n) for n in names]
+                if any(exact_mass(f, tbl, me) <= 0 for f in comps):
+                    continue
+                # exact molar amounts: one mole of the material of the first component (1/c formula units), one
+                # (or, for a third component, several) of the others
+                qs = [comps[0].mass / c * p2] + [f.mass * p2 for f in comps[1:]]
+                if len(qs) == 3:
+                    qs[2] *= rng.choice([1, 2, 3, 7])
+                order = list(range(len(names)))
+                rng.shuffle(order)
+                names, comps, qs = [names[j] for j in order], [comps[j] for j in order], [qs[j] for j in order]
+                inp = dict(components=names, quantities=qs, by="weight", form="call-weight")
+                if rng.random() < 0.4:
+                    text = " // ".join("%rg %s" % (q, n) for q, n in zip(qs, names))
+                    if "e" in text.split("@")[0] and any("e" in repr(q) for q in qs):
+                        text = None
+                else:
+                    text = None
+                by = "W"
+                if text is not None:
+                    inp["string"], inp["form"] = text, "mass"
+                    r = formula(text)
+                else:
+                    r = mix_by_weight(*[x for pair in zip(names, qs) for x in pair])
+        except Exception as e:  # noqa
+            run.violation("mixture with a fractional formula unit raised %s: %s" % (type(e).__name__, str(e)[:80]),
+                          dict(shape=shape, count=c, case=i))
+            continue
+        run.count(key="unitmult" + repr(inp), nontrivial=True, sample=repr(inp) if len(repr(inp)) < 250 else None,
+                  tag="exact-unit-multiplier")
+        try:
+            if by == "V" and any(not f.density for f in comps):
+                continue
+            oracle_mix(run, comps, qs, r, by, inp, tbl, me)
+        except Exception as e:  # noqa
+            run.violation("judging a mixture with a fractional formula unit raised %s: %s"
+                          % (type(e).__name__, str(e)[:80]), inp)
+
+
 def run(run: Run) -> int:
     pt = import_repo()
     from periodictable.formulas import formula, mix_by_weight, mix_by_volume
@@ -664,6 +819,8 @@ def run(run: Run) -> int:
                 break
     scaled_unit_strings(run, tbl, formula)
     private_components(run, api, me)
+    revised_density_strings(run, api, me)
+    exact_unit_multipliers(run, tbl, api, me)
     return run.finish(RULE, assumptions=[
         "two models meet at the mixture strings: Model/Mix.lean evaluates the expression a string was rendered "
         "from (semantic actions), Model/GrammarMix.lean `parseTop` reads the string itself to a term "
